@@ -1,0 +1,17 @@
+// +build verif
+
+// Verification hooks (build tag "verif" only; not part of normal builds).
+
+package vdb
+
+// VerifNewAvailableVersion builds the AvailableVersion GetInstalledPackageList would
+// build for one package directory, so that the harness can choose the order in which
+// entries are added to an AtomSet.
+func VerifNewAvailableVersion(directory, category, namever string) (*AvailableVersion, error) {
+	av := &AvailableVersion{Directory: directory}
+	err := av.setAtom(category, namever)
+	if err != nil {
+		return nil, err
+	}
+	return av, nil
+}
